@@ -146,14 +146,19 @@ type Func struct {
 	Inputs  []*Input
 	Results []Kind
 	ResGo   []types.Type
-	Monadic bool // result type is `outcome ...` (the function can panic or loop)
-	Fuel    bool // first parameter is fuel : nat
+	Prefix  int      // > 0: only the first Prefix statements of the body are translated ("F#prefix")
+	Vars    []string // prefix: the variables handed on (Some (...))
+	Monadic bool     // result type is `outcome ...` (the function can panic or loop)
+	Fuel    bool     // first parameter is fuel : nat
 	Loops   []string
 	Err     error
 	Text    string // the generated Gallina (or the NOT TRANSLATABLE comment)
 }
 
 func (f *Func) ResType() string {
+	if f.Prefix > 0 {
+		return "@RES@" // known once the prefix is translated; filled in by finish
+	}
 	var parts []string
 	for _, k := range f.Results {
 		parts = append(parts, k.Coq())
@@ -206,6 +211,7 @@ type ft struct {
 	fn      *Func
 	pure    bool // second pass: no outcome wrapper
 	effect  bool // something can panic or loop
+	effects int  // how many such places were translated so far
 	err     error
 	names   map[*types.Var]string
 	taken   map[string]bool
@@ -219,6 +225,8 @@ type ft struct {
 	touched []map[*Input]bool
 	fuel    []bool
 	named   []*types.Var // named results
+	prefix  int          // prefix mode: number of statements
+	vars    []*types.Var // prefix mode: the variables handed on
 }
 
 func (t *ft) fail(format string, a ...interface{}) string {
@@ -336,6 +344,9 @@ func (t *ft) local(v *types.Var) (string, bool) {
 }
 
 func (t *ft) declare(v *types.Var) string {
+	if n, ok := t.names[v]; ok { // the same declaration, reached again in a repeated continuation
+		return n
+	}
 	if KindOf(v.Type()) == KNone {
 		return t.fail("local variable %s of unsupported type %s", v.Name(), v.Type())
 	}
@@ -468,6 +479,7 @@ func (t *ft) expr(e ast.Expr) string {
 
 func (t *ft) bindTmp(term string) string {
 	t.effect = true
+	t.effects++
 	n := t.fresh("t")
 	t.pre = append(t.pre, bind{n, term})
 	return n
@@ -792,6 +804,9 @@ func (t *ft) stmt(s ast.Stmt, c *ctx, next cont) string {
 	case *ast.BlockStmt:
 		return t.block(x.List, c, next)
 	case *ast.ReturnStmt:
+		if t.prefix > 0 { // a fragment ends here; what is returned is not part of it
+			return c.ret("None")
+		}
 		return t.seq(func() string {
 			var parts []string
 			if len(x.Results) == 0 {
@@ -812,6 +827,7 @@ func (t *ft) stmt(s ast.Stmt, c *ctx, next cont) string {
 			if id, ok := unparen(call.Fun).(*ast.Ident); ok {
 				if b, ok := t.info.Uses[id].(*types.Builtin); ok && b.Name() == "panic" {
 					t.effect = true
+					t.effects++
 					return "Panic"
 				}
 			}
@@ -878,6 +894,9 @@ func (t *ft) stmt(s ast.Stmt, c *ctx, next cont) string {
 		})
 	case *ast.IfStmt:
 		body := func() string {
+			if !abrupt(x.Body) && (x.Else == nil || !abrupt(x.Else)) {
+				return t.ifJoin(x, c, next)
+			}
 			return t.seq(func() string {
 				cnd := t.expr(x.Cond)
 				thenS := t.block(x.Body.List, c, next)
@@ -926,6 +945,77 @@ func (t *ft) stmt(s ast.Stmt, c *ctx, next cont) string {
 		return t.fail("unsupported %s", x.Tok)
 	}
 	return t.fail("unsupported statement %T", s)
+}
+
+// abrupt: the statement contains a return, break, continue, goto or panic(...) - control may
+// leave it other than by falling off its end
+func abrupt(n ast.Node) bool {
+	found := false
+	ast.Inspect(n, func(m ast.Node) bool {
+		switch y := m.(type) {
+		case *ast.ReturnStmt, *ast.BranchStmt:
+			found = true
+		case *ast.CallExpr:
+			if id, ok := unparen(y.Fun).(*ast.Ident); ok && id.Name == "panic" {
+				found = true
+			}
+		}
+		return !found
+	})
+	return found
+}
+
+// an `if` whose branches can only fall through: its value is the tuple of the outer variables
+// the branches assign, bound before the statements that follow (these are not repeated)
+func (t *ft) ifJoin(x *ast.IfStmt, c *ctx, next cont) string {
+	parts := []ast.Node{x.Body}
+	if x.Else != nil {
+		parts = append(parts, x.Else)
+	}
+	assigned, _ := t.assignedUsed(parts)
+	var vars []*types.Var
+	for v := range assigned {
+		if _, known := t.names[v]; known && !inside(v.Pos(), x) {
+			vars = append(vars, v)
+		}
+	}
+	sort.Slice(vars, func(i, j int) bool { return vars[i].Pos() < vars[j].Pos() })
+	names := []string{}
+	for _, v := range vars {
+		names = append(names, t.names[v])
+	}
+	pat := "tt"
+	if len(names) > 0 {
+		pat = tuple(names)
+	}
+	return t.seq(func() string {
+		cnd := t.expr(x.Cond)
+		n0 := t.effects
+		join := func() string { return "@JOIN@" }
+		thenS := t.block(x.Body.List, c, join)
+		elseS := "@JOIN@"
+		if x.Else != nil {
+			elseS = t.stmt(x.Else, c, join)
+		}
+		ite := fmt.Sprintf("if %s then\n%s\nelse\n%s", cnd, ind(thenS), ind(elseS))
+		if t.effects == n0 { // nothing in the branches can panic or loop
+			if len(names) == 0 {
+				return next()
+			}
+			bnd := names[0]
+			if len(names) > 1 {
+				bnd = "'" + pat
+			}
+			return fmt.Sprintf("let %s :=\n%s in\n%s", bnd, ind(strings.Replace(ite, "@JOIN@", pat, -1)), next())
+		}
+		bnd := "_"
+		if len(names) == 1 {
+			bnd = names[0]
+		} else if len(names) > 1 {
+			bnd = "'" + pat
+		}
+		return fmt.Sprintf("bind (%s) (fun %s =>\n%s)", strings.Replace(ite, "@JOIN@", "Ok "+pat, -1), bnd, next())
+	})
 }
 
 func (t *ft) switchStmt(x *ast.SwitchStmt, c *ctx, next cont) string {
@@ -1004,6 +1094,44 @@ func (t *ft) localVar(id *ast.Ident) *types.Var {
 
 func inside(p token.Pos, n ast.Node) bool { return n != nil && n.Pos() <= p && p < n.End() }
 
+// the local variables that the given parts of the function assign / mention
+func (t *ft) assignedUsed(parts []ast.Node) (assigned, used map[*types.Var]bool) {
+	assigned, used = map[*types.Var]bool{}, map[*types.Var]bool{}
+	mark := func(e ast.Expr) {
+		if e == nil {
+			return
+		}
+		if id, ok := unparen(e).(*ast.Ident); ok {
+			if v := t.localVar(id); v != nil {
+				assigned[v] = true
+			}
+		}
+	}
+	for _, p := range parts {
+		ast.Inspect(p, func(n ast.Node) bool {
+			switch y := n.(type) {
+			case *ast.AssignStmt:
+				for _, l := range y.Lhs {
+					mark(l)
+				}
+			case *ast.IncDecStmt:
+				mark(y.X)
+			case *ast.RangeStmt:
+				if y.Tok == token.ASSIGN {
+					mark(y.Key)
+					mark(y.Value)
+				}
+			case *ast.Ident:
+				if v := t.localVar(y); v != nil {
+					used[v] = true
+				}
+			}
+			return true
+		})
+	}
+	return assigned, used
+}
+
 type rangeInfo struct {
 	idx  string // hidden index variable
 	list string // the slice ranged over (evaluated once)
@@ -1026,15 +1154,6 @@ func (t *ft) loop(node ast.Stmt, cond ast.Expr, post ast.Stmt, body *ast.BlockSt
 		return li
 	}
 	// variables assigned in the loop and living across iterations: the loop state
-	assigned := map[*types.Var]bool{}
-	used := map[*types.Var]bool{}
-	mark := func(e ast.Expr) {
-		if id, ok := unparen(e).(*ast.Ident); ok {
-			if v := t.localVar(id); v != nil {
-				assigned[v] = true
-			}
-		}
-	}
 	parts := []ast.Node{body}
 	if cond != nil {
 		parts = append(parts, cond)
@@ -1042,29 +1161,13 @@ func (t *ft) loop(node ast.Stmt, cond ast.Expr, post ast.Stmt, body *ast.BlockSt
 	if post != nil {
 		parts = append(parts, post)
 	}
-	for _, p := range parts {
-		ast.Inspect(p, func(n ast.Node) bool {
-			switch y := n.(type) {
-			case *ast.AssignStmt:
-				for _, l := range y.Lhs {
-					mark(l)
-				}
-			case *ast.IncDecStmt:
-				mark(y.X)
-			case *ast.RangeStmt:
-				if y.Tok == token.ASSIGN {
-					mark(y.Key)
-					if y.Value != nil {
-						mark(y.Value)
-					}
-				}
-			case *ast.Ident:
-				if v := t.localVar(y); v != nil {
-					used[v] = true
-				}
+	assigned, used := t.assignedUsed(parts)
+	mark := func(e ast.Expr) {
+		if id, ok := unparen(e).(*ast.Ident); ok {
+			if v := t.localVar(id); v != nil {
+				assigned[v] = true
 			}
-			return true
-		})
+		}
 	}
 	if rng != nil && !rng.def { // for k, v = range s: outer variables assigned by every iteration
 		for _, id := range []*ast.Ident{rng.key, rng.val} {
@@ -1225,6 +1328,7 @@ func (t *ft) loopCall(li *loopInfo, c *ctx, next cont) string {
 		return "0"
 	}
 	t.useFuel()
+	t.effects++
 	st := t.stateTuple(li, nil)
 	return fmt.Sprintf("match %s fuel%s %s with\n| Ok (inl %s) =>\n%s\n| Ok (inr ret_v) => %s\n| Panic => Panic\n| OutOfFuel => OutOfFuel\nend",
 		li.name, li.envArgs, st, st, ind(next()), c.ret("ret_v"))
@@ -1259,6 +1363,7 @@ func (t *ft) rangeStmt(x *ast.RangeStmt, c *ctx, next cont) string {
 			return "0"
 		}
 		t.useFuel()
+		t.effects++
 		st := t.stateTuple(li, rng)
 		return fmt.Sprintf("let %s := %s in\nlet %s := 0 in\nmatch %s fuel%s %s with\n| Ok (inl %s) =>\n%s\n| Ok (inr ret_v) => %s\n| Panic => Panic\n| OutOfFuel => OutOfFuel\nend",
 			rng.list, l, rng.idx, li.name, li.envArgs, st, st, ind(next()), c.ret("ret_v"))
@@ -1284,15 +1389,20 @@ func paramDecl(names, tys []string) string {
 // Translate translates the function or method called name ("F" / "T.M", or
 // "import/path:F" / "import/path:T.M" for a callee in another package) and records it.
 func (T *Translator) Translate(name string) *Func {
-	pkg, decl, coq := T.Pkg, name, T.Prefix+strings.Replace(name, ".", "_", 1)
-	if i := strings.LastIndex(name, ":"); i >= 0 {
-		path := name[:i]
-		decl = name[i+1:]
+	frag := strings.HasSuffix(name, "#prefix")
+	base := strings.TrimSuffix(name, "#prefix")
+	pkg, decl, coq := T.Pkg, base, T.Prefix+strings.Replace(base, ".", "_", 1)
+	if i := strings.LastIndex(base, ":"); i >= 0 {
+		path := base[:i]
+		decl = base[i+1:]
 		if T.others[path] == nil {
 			T.others[path] = T.Pkg.LoadImport(path)
 		}
 		pkg = T.others[path]
 		coq = T.Prefix + pkg.Types.Name() + "_" + strings.Replace(decl, ".", "_", 1)
+	}
+	if frag {
+		coq += "_prefix"
 	}
 	fd := pkg.Decls[decl]
 	fn := &Func{Name: name, Coq: coq, Pkg: pkg, Decl: fd}
@@ -1314,20 +1424,36 @@ func (T *Translator) Translate(name string) *Func {
 					fn.Err = fmt.Errorf("internal error: %v", r)
 				}
 			}()
-			t := T.run(fn, false)
-			if t.err == nil && !t.effect {
-				t = T.run(fn, true) // nothing can panic or loop: a plain definition
+			first, last := 0, 0 // whole function
+			if frag {           // the longest translatable prefix of the body, up to its first top-level return
+				first, last = len(fd.Body.List), 1
+				for i, st := range fd.Body.List {
+					if _, isRet := st.(*ast.ReturnStmt); isRet && i < first {
+						first = i
+					}
+				}
 			}
-			fn.Err = t.err
-			if fn.Err == nil {
-				T.finish(fn, t, filepath.Base(pos.Filename))
+			for k := first; k >= last; k-- {
+				fn.Prefix = k
+				t := T.run(fn, false)
+				if t.err == nil && !t.effect {
+					t = T.run(fn, true) // nothing can panic or loop: a plain definition
+				}
+				fn.Err = t.err
+				if fn.Err == nil {
+					T.finish(fn, t, filepath.Base(pos.Filename))
+					break
+				}
+			}
+			if frag && len(fd.Body.List) == 0 {
+				fn.Err = fmt.Errorf("empty body")
 			}
 		}()
 	}
 	if fn.Err != nil {
 		fn.Text = fmt.Sprintf("(* %s: NOT TRANSLATABLE: %v *)\n\n", where, fn.Err)
 	}
-	if fn.Obj != nil {
+	if fn.Obj != nil && !frag { // (a fragment is never the target of a call)
 		T.Funcs[key(fn.Obj)] = fn
 	}
 	return fn
@@ -1352,11 +1478,12 @@ func (T *Translator) run(fn *Func, pure bool) *ft {
 	for i := 0; i < sig.Params().Len(); i++ {
 		fn.Params = append(fn.Params, sig.Params().At(i))
 	}
-	if sig.Results().Len() == 0 {
+	t.prefix = fn.Prefix
+	if sig.Results().Len() == 0 && t.prefix == 0 {
 		t.fail("function without a result")
 		return t
 	}
-	for i := 0; i < sig.Results().Len(); i++ {
+	for i := 0; i < sig.Results().Len() && t.prefix == 0; i++ {
 		r := sig.Results().At(i)
 		if KindOf(r.Type()) == KNone {
 			t.fail("result of unsupported type %s", r.Type())
@@ -1379,21 +1506,48 @@ func (T *Translator) run(fn *Func, pure bool) *ft {
 	}
 	head := ""
 	for i := 0; i < sig.Results().Len(); i++ {
-		if r := sig.Results().At(i); r.Name() != "" && r.Name() != "_" {
+		if r := sig.Results().At(i); t.prefix > 0 {
+			if r.Name() != "" && r.Name() != "_" && KindOf(r.Type()) != KNone {
+				head += fmt.Sprintf("let %s := %s in\n", t.declare(r), KindOf(r.Type()).zero())
+			}
+		} else if r.Name() != "" && r.Name() != "_" {
 			t.named = append(t.named, r)
 			head += fmt.Sprintf("let %s := %s in\n", t.declare(r), KindOf(r.Type()).zero())
 		} else if r.Name() == "_" {
 			t.fail("blank named result")
 		}
 	}
-	if len(t.named) != 0 && len(t.named) != sig.Results().Len() {
+	if t.prefix == 0 && len(t.named) != 0 && len(t.named) != sig.Results().Len() {
 		t.fail("partly named results")
 	}
 	c := &ctx{ret: func(v string) string { return "Ok " + v }}
 	if pure {
 		c.ret = func(v string) string { return v }
 	}
-	body := head + t.block(fn.Decl.Body.List, c, func() string {
+	stmts := fn.Decl.Body.List
+	if t.prefix > 0 {
+		stmts = stmts[:t.prefix]
+	}
+	body := head + t.block(stmts, c, func() string {
+		if t.prefix > 0 { // hand on the variables of the function's own scope
+			if t.vars == nil {
+				scope := t.info.Scopes[fn.Decl.Type]
+				for v := range t.names {
+					if v.Parent() == scope {
+						t.vars = append(t.vars, v)
+					}
+				}
+				sort.Slice(t.vars, func(i, j int) bool { return t.vars[i].Pos() < t.vars[j].Pos() })
+			}
+			var parts []string
+			for _, v := range t.vars {
+				parts = append(parts, t.names[v])
+			}
+			if len(parts) == 0 {
+				parts = []string{"tt"}
+			}
+			return c.ret("(Some " + tuple(parts) + ")")
+		}
 		if pure {
 			return t.fail("control reaches the end of the function")
 		}
@@ -1415,6 +1569,11 @@ func (T *Translator) run(fn *Func, pure bool) *ft {
 	}
 	fn.Monadic, fn.Fuel, fn.Loops = !pure, t.fuel[0], t.loops
 	fn.Text = body
+	fn.Vars, fn.Results = nil, fn.Results[:len(fn.Results):len(fn.Results)]
+	for _, v := range t.vars {
+		fn.Vars = append(fn.Vars, t.names[v])
+		fn.Results = append(fn.Results, KindOf(v.Type()))
+	}
 	return t
 }
 
@@ -1427,16 +1586,31 @@ func (T *Translator) finish(fn *Func, t *ft, file string) {
 	if fn.Fuel {
 		ps = " (fuel : nat)" + ps
 	}
-	res := fn.ResType()
+	res, note := fn.ResType(), ""
+	if fn.Prefix > 0 {
+		var tys []string
+		for _, k := range fn.Results {
+			tys = append(tys, k.Coq())
+		}
+		if len(tys) == 0 {
+			tys = []string{"unit"}
+		}
+		res = "(option (" + strings.Join(tys, " * ") + "))"
+		list := fn.Decl.Body.List
+		line := func(p token.Pos) int { return fn.Pkg.Fset.Position(p).Line }
+		note = fmt.Sprintf(": the first %d of the %d statements of the body (lines %d-%d).\n   None = a return statement was reached; Some %s = the variables when control reaches the next statement",
+			fn.Prefix, len(list), line(list[0].Pos()), line(list[fn.Prefix-1].End()), tuple(append([]string{}, fn.Vars...)))
+	}
+	full := res
 	if fn.Monadic {
-		res = "outcome " + res
+		full = "outcome " + res
 	}
 	var b strings.Builder
-	fmt.Fprintf(&b, "(* %s, %s *)\n", fn.Name, file)
+	fmt.Fprintf(&b, "(* %s, %s%s *)\n", fn.Name, file, note)
 	for _, l := range fn.Loops {
-		b.WriteString(l)
+		b.WriteString(strings.Replace(l, "@RES@", res, -1))
 	}
-	fmt.Fprintf(&b, "Definition %s%s : %s :=\n%s.\n\n", fn.Coq, ps, res, ind(fn.Text))
+	fmt.Fprintf(&b, "Definition %s%s : %s :=\n%s.\n\n", fn.Coq, ps, full, ind(fn.Text))
 	fn.Text = b.String()
 }
 
